@@ -35,7 +35,8 @@ class Contract:
         self.known = kw.pop("known", {})            # clause index -> known finding id
         self.ghost_entry = kw.pop("ghost_entry", [])   # ghost statements executed at function entry (ghost.* only)
         self.hints = kw.pop("hints", [])
-        self.merge_returns = kw.pop("merge_returns", False)   # check the postcondition once on the merged exit            # instances of *proved lemmas* assumed at every exit
+        self.merge_returns = kw.pop("merge_returns", False)
+        self.raises_only = kw.pop("raises_only", False)     # the unit is expected never to return normally   # check the postcondition once on the merged exit            # instances of *proved lemmas* assumed at every exit
         if kw:
             raise TypeError("unknown contract keys %r" % list(kw))
 
@@ -69,6 +70,7 @@ class Registry:
         self.sym_fields = {}
         self.inline_loops = {}      # addr -> loops spec for inlined helpers with loops
         self.lemma_names = set()
+        self.pure_externals = set()
         self.record_classes = {}    # "module:Class" -> shape name: instances are symbolic records (Boogie heap)
         self.assume_all = False     # while set, contracts are registered for call sites only (proved elsewhere)
         self.ctor_inline_limit = 400
@@ -98,8 +100,12 @@ class Registry:
         self.shapes[name] = Shape(name, cls, f, m, ghost)
         return self.shapes[name]
 
-    def external(self, name, fn):
+    def external(self, name, fn, pure=False):
+        """assumed-contract model of an external function.  pure=True: the model has no side effects and may be
+        applied per alternative of union-typed arguments (never do that for models that update ghost state)"""
         self.externals[name] = fn
+        if pure:
+            self.pure_externals.add(name)
 
     def native_spec(self, name, sym, conc=None):
         self.native_specs[name] = (sym, conc)
